@@ -62,3 +62,8 @@ claim("C03", "exploration",
       "The real Start/Sample/PrepareChannels/StartRun/readerMainLoop/getNextBlock/CoreLoop pipeline runs against scripted PacketProducers (packets built by the public constructors and passed through Bytes()/ReadPacket): 1-4 channel groups on 1-3 producers, 1-32 frames per packet, int16/int32 payloads, per-group sequence-number bases, loss patterns (isolated, bursts, long runs, first packets, dense) and per-tick batching with empty ticks and lagging groups. Every sample value encodes (channel, global frame); every block handed to ProcessSegments is compared with the per-channel reference stream (delivered samples in order, frames-per-packet filler per lost packet), equal lengths on all channels, contiguous frame numbers, and the dropped-frame total with the frames filled in. Each script is executed 3-6 times because the reader iterates a Go map.",
       "Scripted producers stand in for UDP/ring hardware and implement the repository's PacketProducer interface. Equal frames per packet in all groups, timestamps present, run continues the sequence numbers seen while sampling. Filler values unconstrained; progress is judged on a logical clock (reader ticks), not wall time.",
       "reference-stream + conservation oracle over blocks tapped at ProcessSegments; scripted packet producers with loss/lag injection", "DESIGN.md §3 C03")
+
+claim("C19", "exploration",
+      "Source configurations are generated around the acceptance boundaries and pushed through the real numbering code: Lancero with 1-4 cards (any device numbers/order, equal or mixed row counts, columns 1-8), first-row numbers incl. 0/negative, card and column separations negative/0/one-too-small/exact/large, on fresh and on re-used source objects (PrepareChannels); Abaco group layouts adjacent/spaced/overlapping by one or several channels/nested via scripted packets (Sample + PrepareChannels); Triangle/SimPulse/Roach/AnySource defaults. For every accepted configuration the identity tables must have pairwise distinct names, partners sharing one number, no number collision, reported groups covering exactly the numbers in use, row/column codes equal to the true geometry; for a sample, LJH2.2+LJH3 writing is started, one record per stream written, and the directory must hold one file per stream whose header identity equals the reported identity.",
+      "Outcome-based: a colliding configuration that is accepted is observed as a collision; rejecting a collision-free configuration is not flagged. Device geometry is set directly in-package (what card sampling would determine); the full Start path with a scripted card is exercised by C04/C10.",
+      "uniqueness/consistency predicates over identity tables after the real PrepareChannels/Sample, plus decoded file headers", "DESIGN.md §3 C19")
